@@ -100,7 +100,9 @@ class TaskRunner:
 
     def handle_error(self, code, frame_type):
         logger.info("Error handler: finished with code %d", code)
-        if self.locked():
+        # (a success marker means that the task ran to completion: a signal or
+        # an error in a later launch, which does not run it, is not its failure)
+        if self.locked() and not self.donepath.is_file():
             self.failedpath.write_text(str(code))
         self.cleanup()
         logger.info("Exiting")
